@@ -93,7 +93,9 @@ class PoolScenario(Scenario):
             rows = [s.randrange(len(recs)) for _ in range(nrows)]
             wform = s.pick(["one", "one", "array", "array", 0.5, 2.0, 1.0])
             st.update(obj=h, rows=rows, weights=wform, box=s.pick(self.boxes))
-            if wform == "array":
+            if wform == "array" and s.chance(0.12):
+                st["row_weights"] = [s.pick(specmod.NEAR_ONE_WEIGHTS) for _ in rows]
+            elif wform == "array":
                 st["row_weights"] = [specmod.enc_float(s.pick(specmod.ODD_WEIGHTS)) if s.chance(self.odd_row_weights) else s.pick(specmod.POS_WEIGHTS + [0.0, 0.0])
                                      for _ in rows]
         elif op in ("add", "iadd"):
@@ -116,6 +118,9 @@ class PoolScenario(Scenario):
         elif op in ("zero", "copy"):
             h = s.pick(ab.handles())
             st.update(obj=h, out=ab.new(ab.objs[h]["k"], ab.objs[h]["mut"], op))
+        elif op == "immutable":
+            h = s.pick(ab.handles())
+            st.update(obj=h, out=ab.new(ab.objs[h]["k"], False, op))
         elif op == "ship":
             h = s.pick(ab.handles())
             wire = s.pick(self.wires)
@@ -213,7 +218,7 @@ class PoolScenario(Scenario):
             if not w.has(st["obj"]) or any(r >= len(w.records) for r in st["rows"]):
                 return None, set()
             h = w.heap[st["obj"]]
-            if not hasattr(h.fill, "numpy") or not self.has_quantity(w.specs, w.meta[st["obj"]]["k"]):
+            if not hasattr(h.fill, "numpy") or not (st.get("any_tree") or self.has_quantity(w.specs, w.meta[st["obj"]]["k"])):
                 return None, set()  # a bare Count has no fill.numpy; a tree without quantities cannot learn the row count
             box = make_box(w.records, st["rows"], st["box"])
             fp = box_fingerprint(box)
@@ -268,6 +273,13 @@ class PoolScenario(Scenario):
             o = call(a.zero if op == "zero" else a.copy)
             if o.ok:
                 w.put(st["out"], o.value, k=w.meta[st["obj"]]["k"], via=op, mut=w.meta[st["obj"]]["mut"])
+            return o, set()
+        if op == "immutable":
+            if not w.has(st["obj"]):
+                return None, set()
+            o = call(w.heap[st["obj"]].toImmutable)
+            if o.ok:
+                w.put(st["out"], o.value, k=w.meta[st["obj"]]["k"], via="toImmutable", mut=False)
             return o, set()
         if op == "ship":
             if not w.has(st["obj"]):
